@@ -8,10 +8,10 @@ def aconsts(hascmp, vals=range(9), types=(0, 1, 2), defects=()):
     return {"HasCmp": bool(hascmp), "Vals": set(vals), "Types": set(types), "Defects": set(defects)}
 
 
-def aworld(name, storage, spread=0, fraction=1.0, compiler="g++", std="c++11", opt="-O1", sanitize=True):
-    return {"name": name, "source": "anyid_run.cpp", "defines": ["W_STORAGE=%d" % storage, "W_SPREAD=%d" % spread],
+def aworld(name, storage, spread=0, fraction=1.0, compiler="g++", std="c++11", opt="-O1", sanitize=True, typedig=0):
+    return {"name": name, "source": "anyid_run.cpp", "defines": ["W_STORAGE=%d" % storage, "W_SPREAD=%d" % spread, "W_TYPEDIG=%d" % typedig],
             "fraction": fraction, "compiler": compiler, "std": std, "opt": opt, "sanitize": sanitize,
-            "trace_env": {"HASCMP": "1" if storage else "0"}}
+            "trace_env": {"HASCMP": "1" if storage else "0", "TYPEDIG": str(typedig)}}
 
 
 ASSUME = ["TLC and the CommunityModules JSON reader are correct",
@@ -31,6 +31,8 @@ def c18(tier, seed):
     worlds = [aworld("a_val_spread", 1, 0),
               aworld("a_empty_spread", 0, 0),
               aworld("a_valdesc_extremes", 2, 1, fraction=fq),
+              aworld("a_val_typedigest", 1, 0, fraction=fq * 2, typedig=1),       # one value under two digests (digest depends on the C++ type)
+              aworld("a_empty_typedigest", 0, 1, fraction=fq, typedig=1),
               aworld("a_empty_high32", 0, 2, fraction=fq)]
     if not quick:
         worlds += [aworld("a_val_high32_clang17", 1, 2, compiler="clang++", std="c++17", opt="-O2"),
